@@ -508,6 +508,9 @@ def do_rng(env, st, i):
         if st.get('expect') == 'raise':
             return []
         return fail(i, err)
+    if st.get('nomodel'):
+        env.nomodel = True
+        return []
     # model: the slice path when above the threshold, otherwise the explicit-pixel path
     npx = sum(b - a for a, b in rows)
     use_thr = old_thr if thr is None else thr
@@ -1022,3 +1025,638 @@ def do_mklike(env, st, i):
 def do_kindsame(env, st, i):
     a, b = env.maps[st['h']], env.maps[st['ref']]
     return same_kind(i, 'make_empty_like: kind of the new map', a, b)
+
+
+# ---------------------------------------------------------------- MOC (C17)
+def _expand_uniq(uniq, mx):
+    out = []
+    for u in uniq:
+        o = (int(u) // 4).bit_length() - 1
+        o //= 2
+        i = int(u) - 4 * 4 ** o
+        d = mx - o
+        out.append((o, i << (2 * d), (i + 1) << (2 * d)))
+    return out
+
+
+@step('moc')
+def do_moc(env, st, i):
+    import astropy.io.fits as afits
+    h = st['h']
+    m = env.maps[h]
+    meta = env.meta[h]
+    fname = os.path.join(tmpdir(), 'moc_%d_%d.fits' % (i, os.getpid()))
+    vp = sorted(int(p) for p in m.valid_pixels)
+    if not vp:
+        return []
+    snap_before = (meta.cells(m.get_values_pix(np.arange(meta.npix))), vp)
+    _, err = run_api(i, 'write_moc', lambda: m.write_moc(fname, clobber=True))
+    if err:
+        return fail(i, err)
+    pairs = []
+    if (meta.cells(m.get_values_pix(np.arange(meta.npix))), sorted(int(p) for p in m.valid_pixels)) != snap_before:
+        pairs += fail(i, 'write_moc changed the map')
+    with afits.open(fname) as hl:
+        uniq = sorted(int(u) for u in hl[1].data['UNIQ'])
+    mx = int(round(np.log2(m.nside_sparse)))
+    mn = int(round(np.log2(m.nside_coverage)))
+    cells = _expand_uniq(uniq, mx)
+    # property, evaluated on the cells the implementation wrote (independent expansion)
+    covered = np.zeros(meta.npix, dtype=np.int32)
+    for o, lo, hi in cells:
+        covered[lo:hi] += 1
+    if covered.max() > 1:
+        pairs += fail(i, 'MOC cells overlap')
+    if sorted(np.where(covered > 0)[0].tolist()) != vp:
+        pairs += fail(i, 'the cells of the MOC file do not cover exactly the valid pixels',
+                      impl=dict(extra=[int(p) for p in np.where((covered > 0))[0] if p not in set(vp)][:10],
+                                missing=[p for p in vp if covered[p] == 0][:10]))
+    if any(o < mn for o, _, _ in cells):
+        pairs += fail(i, 'a MOC cell is coarser than the coverage resolution')
+    # read back
+    res, err = run_api(i, 'read(moc)', lambda: HealSparseMap.read(fname, nside_coverage=m.nside_coverage))
+    if err:
+        pairs += fail(i, err)
+    else:
+        o2 = int(round(np.log2(res.nside_sparse)))
+        back = np.zeros(meta.npix, dtype=bool)
+        for p in res.valid_pixels:
+            back[int(p) << (2 * (mx - o2)): (int(p) + 1) << (2 * (mx - o2))] = True
+        if sorted(np.where(back)[0].tolist()) != vp:
+            pairs += fail(i, 'the map read back from the MOC file covers a different part of the sky')
+        if res.dtype != np.bool_:
+            pairs += fail(i, 'the map read back from a MOC file is not boolean')
+    # correspondence with the writer model (small sets only: the model is quadratic)
+    if len(vp) <= 400:
+        def cmp(r, uniq=uniq):
+            if r[1] != uniq:
+                return [dict(step=i, what='UNIQ cells written differ from the writer model', layer='L1', impl=uniq[:40], model=r[1][:40])]
+            return []
+        pairs.append(([[30], [mx, mn], vp], cmp))
+
+        def cmp2(r, vp=vp, uniq=uniq):
+            if r[1] != vp:
+                return [dict(step=i, what='expansion (reader model) of the written cells is not the valid set', layer='L0',
+                             impl=vp[:40], model=r[1][:40])]
+            return []
+        pairs.append(([[31], [mx], uniq], cmp2))
+    return pairs
+
+
+# ---------------------------------------------------------------- concatenation (C18)
+@step('cat')
+def do_cat(env, st, i):
+    from healsparse import cat_healsparse_files
+    hs = st['hs']
+    out = st['out']
+    maps = [env.maps[h] for h in hs]
+    files = []
+    for k, m in enumerate(maps):
+        fn = os.path.join(tmpdir(), 'cat_%d_%d_%d.hsp' % (i, k, os.getpid()))
+        _, err = run_api(i, 'write', lambda: m.write(fn, clobber=True))
+        if err:
+            return fail(i, err)
+        files.append(fn)
+    outfile = os.path.join(tmpdir(), 'cat_%d_out_%d.hsp' % (i, os.getpid()))
+    nco = st.get('nside_coverage_out')
+    kw = dict(in_memory=True, clobber=True)
+    if nco is not None:
+        kw['nside_coverage_out'] = nco
+    if st.get('check_overlap'):
+        kw['check_overlap'] = True
+    if st.get('or_overlap'):
+        kw['check_overlap'] = True
+        kw['or_overlap'] = True
+    # overlap of the valid sets (ground truth from the inputs themselves)
+    seen = set()
+    overlap = False
+    for m in maps:
+        vp = set(int(p) for p in m.valid_pixels)
+        if seen & vp:
+            overlap = True
+        seen |= vp
+    _, err = run_api(i, 'cat_healsparse_files', lambda: cat_healsparse_files(files, outfile, **kw))
+    if err:
+        if overlap and st.get('check_overlap') and not st.get('or_overlap'):
+            return []          # an error is required
+        return fail(i, err)
+    if overlap and st.get('check_overlap') and not st.get('or_overlap'):
+        return fail(i, 'overlapping inputs were concatenated although check_overlap was requested')
+    if overlap:
+        return []              # without overlap checking the result on shared pixels is unspecified
+    res, err = run_api(i, 'read(cat output)', lambda: HealSparseMap.read(outfile))
+    if err:
+        return fail(i, err)
+    env.put(out, res)
+    nm = env.meta[out]
+    m0 = maps[0]
+    pairs = meta_check(i, 'concatenation', describe(res)[1:], describe(m0)[1:])
+    if nco is not None and res.nside_coverage != nco:
+        pairs += fail(i, 'concatenation output has nside_coverage %d, requested %d' % (res.nside_coverage, nco))
+    ncov2 = 12 * res.nside_coverage ** 2
+    nfine2 = (res.nside_sparse // res.nside_coverage) ** 2
+    pairs.append(([[32], [out], list(hs), ktoks(nm), [ncov2, nfine2]], expect_ok(i, 'cat')))
+    return pairs
+
+
+# ---------------------------------------------------------------- degrade on read (C19)
+@step('rdeg')
+def do_rdeg(env, st, i):
+    """read(file, degrade_nside, reduction, pixels, weightfile) [-> out] must equal
+    read(file, pixels).degrade(...) [-> out2]"""
+    h, out, out2 = st['h'], st['out'], st['out2']
+    m = env.maps[h]
+    meta = env.meta[h]
+    fn = os.path.join(tmpdir(), 'rdeg_%d_%d.hsp' % (i, os.getpid()))
+    _, err = run_api(i, 'write', lambda: m.write(fn, clobber=True, nocompress=not st.get('compress', True)))
+    if err:
+        return fail(i, err)
+    hw = st.get('hw')
+    wfn = None
+    if hw is not None:
+        wfn = os.path.join(tmpdir(), 'rdegw_%d_%d.hsp' % (i, os.getpid()))
+        _, err = run_api(i, 'write weights', lambda: env.maps[hw].write(wfn, clobber=True))
+        if err:
+            return fail(i, err)
+    pixels = st.get('pixels')
+    red = st['reduction']
+    n = st['nside_out']
+    kw = dict(degrade_nside=n, reduction=red)
+    if pixels is not None:
+        kw['pixels'] = [int(c) for c in pixels]
+    if wfn is not None:
+        kw['weightfile'] = wfn
+    any_cov = pixels is None or any(m.coverage_mask[int(c)] for c in pixels)
+    r1, e1 = run_api(i, 'read(degrade_nside=)', lambda: HealSparseMap.read(fn, **kw))
+
+    def ref():
+        kw2 = {} if pixels is None else dict(pixels=[int(c) for c in pixels])
+        a = HealSparseMap.read(fn, **kw2)
+        w = None if wfn is None else HealSparseMap.read(wfn, **kw2)
+        return a.degrade(n, reduction=red, weights=w)
+    r2, e2 = run_api(i, 'read().degrade()', ref)
+    if e1 or e2:
+        if e1 and e2:
+            return [] if (not any_cov or st.get('expect') == 'raise') else fail(i, 'both degrade-on-read and read-then-degrade raised: ' + e1)
+        return fail(i, 'degrade-on-read and read-then-degrade disagree: %s / %s' % (e1 or 'ok', e2 or 'ok'))
+    env.put(out, r1)
+    env.put(out2, r2)
+    nm = env.meta[out]
+    pairs = same_kind(i, 'degrade-on-read vs read-then-degrade', r1, r2)
+    set_tolerance(nm, m, red)
+    set_tolerance(env.meta[out2], m, red)
+    # model: partial read of the covered requested pixels in ascending order, then degrade
+    req = [int(c) for c in (pixels if pixels is not None else np.where(m.coverage_mask)[0])]
+    pairs.append(([[25], [h], [9200], req], expect_ok(i, 'rdeg-read')))
+    use_w = -1
+    if hw is not None and red == 'wmean':
+        pairs.append(([[25], [hw], [9201], req], expect_ok(i, 'rdeg-read-w')))
+        use_w = 9201
+    kind, dtn, sent = expected_degrade_meta(m, meta, n, red)
+    if kind == 'rec':
+        btoks = []
+        for nme in m.dtype.names:
+            ft = np.float64 if np.dtype(m.dtype[nme]).kind in 'iu' else np.dtype(m.dtype[nme]).type
+            btoks += qtok(ft(UNSEEN))
+    else:
+        btoks = qtok(r1._sentinel)
+    r = (m.nside_sparse // n) ** 2
+    pairs.append(([[20], [9200], [out], [r, RED[red]], ktoks(nm), [use_w], btoks], expect_ok(i, 'rdeg-degrade')))
+    return pairs
+
+
+# ---------------------------------------------------------------- HEALPix interchange (C16)
+def _dense_expected(meta, vals_tokens, valid_set, dtype_out, fill):
+    a = np.full(meta.npix, fill, dtype=dtype_out)
+    for p in valid_set:
+        a[p] = Fraction(vals_tokens[2 * p], vals_tokens[2 * p + 1])
+    return a
+
+
+@step('fromhp')
+def do_fromhp(env, st, i):
+    """HealSparseMap(healpix_map=A, nside_coverage=, nest=, sentinel=)"""
+    out = st['out']
+    dt = DT[st['dtype']]
+    ns = st['ns']
+    npix = 12 * ns * ns
+    nest = bool(st.get('nest', True))
+    sent = st.get('sentinel')
+    A = np.full(npix, UNSEEN if sent is None else sent, dtype=dt)
+    pix = [int(p) for p in st['pixels']]
+    for p, v in zip(pix, st['values']):
+        A[p] = v
+    kw = dict(nest=nest)
+    if sent is not None:
+        kw['sentinel'] = int(sent) if np.dtype(dt).kind in 'iu' else float(sent)
+    if np.dtype(dt).kind in 'iu' and sent is None:
+        return []      # an integer array needs an integer sentinel (documented)
+    Ain = A if nest else hpg.reorder(A, ring_to_nest=False)
+    res, err = run_api(i, 'HealSparseMap(healpix_map=)', lambda: HealSparseMap(healpix_map=Ain.copy(), nside_coverage=st['nc'], **kw))
+    if err:
+        return fail(i, err)
+    env.put(out, res)
+    nm = env.meta[out]
+    pairs = meta_check(i, 'from healpix', (res.nside_coverage, res.nside_sparse, np.dtype(res.dtype).name),
+                       (st['nc'], ns, np.dtype(dt).name))
+    # the model: pre-allocated coverage pixels in ascending order, values written (UNSEEN entries stay blank)
+    validpix = [p for p in range(npix) if A[p] > UNSEEN]
+    nfine = (ns // st['nc']) ** 2
+    covs = sorted(set(p // nfine for p in validpix))
+    mk = [[1], [out], [nm.ncov, nm.nfine], ktoks(nm), [nm.sent.numerator, nm.sent.denominator], [1], covs]
+    pairs.append((mk, expect_ok(i, 'fromhp-mk')))
+    toks = []
+    for p in validpix:
+        toks += qtok(A[p])
+    if validpix:
+        pairs.append(([[2], [out], [0, 0], validpix, toks], expect_ok(i, 'fromhp-fill')))
+    env.dense = getattr(env, 'dense', {})
+    env.dense[out] = A
+    return pairs
+
+
+@step('tohp')
+def do_tohp(env, st, i):
+    """generate_healpix_map (NEST and RING) against the values of the map"""
+    h = st['h']
+    m = env.maps[h]
+    meta = env.meta[h]
+    if meta.kind in ('wide',):
+        return []
+    allpix = np.arange(meta.npix, dtype=np.int64)
+    kw = {}
+    if meta.kind == 'rec':
+        kw['key'] = st.get('key', meta.fields[0])
+    pairs = []
+    for nest in (True, False):
+        got, err = run_api(i, 'generate_healpix_map', lambda: m.generate_healpix_map(nest=nest, **kw))
+        if err:
+            pairs += fail(i, err)
+            continue
+        src = m if meta.kind != 'rec' else m.get_single(kw['key'], copy=True)
+        vals = src.get_values_pix(allpix)
+        vm = src.get_values_pix(allpix, valid_mask=True)
+        if np.dtype(src.dtype) == np.bool_:
+            want = np.where(vm, vals, False)
+            wdt = np.bool_
+        else:
+            wdt = np.float64 if np.dtype(src.dtype).kind in 'iu' else src.dtype
+            want = np.where(vm, vals.astype(wdt), np.dtype(wdt).type(UNSEEN))
+        if not nest:
+            want = hpg.reorder(want, ring_to_nest=False)
+        if got.dtype != np.dtype(wdt) or not np.array_equal(got, want):
+            pairs += fail(i, 'generate_healpix_map(nest=%s) differs from the map (UNSEEN where invalid, integers as float64)' % nest)
+    # degraded export equals degrade then export
+    if st.get('nside') and meta.kind == 'plain' and np.dtype(m.dtype) != np.bool_:
+        n2 = st['nside']
+        for nest in (True, False):
+            got, err = run_api(i, 'generate_healpix_map(nside=)', lambda: m.generate_healpix_map(nside=n2, reduction=st.get('reduction', 'mean'), nest=nest))
+            ref, err2 = run_api(i, 'degrade+generate', lambda: m.degrade(n2, reduction=st.get('reduction', 'mean')).generate_healpix_map(nest=nest))
+            if err or err2:
+                pairs += fail(i, 'generate_healpix_map(nside=%d, nest=%s): %s' % (n2, nest, err or err2))
+            elif not np.array_equal(got, ref):
+                pairs += fail(i, 'generate_healpix_map(nside=, nest=%s) differs from degrade followed by export' % nest)
+    return pairs
+
+
+@step('hpround')
+def do_hpround(env, st, i):
+    """to_dense(from_healpix(A)) == A for the array recorded by 'fromhp'"""
+    h = st['h']
+    m = env.maps[h]
+    A = getattr(env, 'dense', {}).get(h)
+    if A is None:
+        return []
+    got, err = run_api(i, 'generate_healpix_map', lambda: m.generate_healpix_map(nest=True))
+    if err:
+        return fail(i, err)
+    wdt = np.float64 if np.dtype(A.dtype).kind in 'iu' else A.dtype
+    valid = A > UNSEEN
+    if np.dtype(A.dtype).kind in 'iu':
+        valid = A != m._sentinel
+    want = np.where(valid, A.astype(wdt), np.dtype(wdt).type(UNSEEN))
+    if not np.array_equal(got, want):
+        return fail(i, 'dense -> sparse -> dense does not reproduce the HEALPix array')
+    return []
+
+
+@step('hpfile')
+def do_hpfile(env, st, i):
+    """write(format='healpix') and read back with nside_coverage"""
+    h, out = st['h'], st['out']
+    m = env.maps[h]
+    fn = os.path.join(tmpdir(), 'hp_%d_%d.fits' % (i, os.getpid()))
+    _, err = run_api(i, "write(format='healpix')", lambda: m.write(fn, clobber=True, format='healpix'))
+    if err:
+        return fail(i, err)
+    res, err = run_api(i, 'read(healpix file)', lambda: HealSparseMap.read(fn, nside_coverage=m.nside_coverage))
+    if err:
+        return fail(i, err)
+    env.put(out, res)
+    pairs = meta_check(i, 'healpix explicit file', describe(res), describe(m))
+    # model: same content, coverage rebuilt from the valid pixels (ascending update into an empty map)
+    meta = env.meta[h]
+    pairs.append(([[22], [h], [out], [meta.ncov, meta.nfine], [0], []], expect_ok(i, 'hpfile')))
+    return pairs
+
+
+@step('interp')
+def do_interp(env, st, i):
+    h = st['h']
+    m = env.maps[h]
+    meta = env.meta[h]
+    lon = np.array(st['lon'], dtype=np.float64)
+    lat = np.array(st['lat'], dtype=np.float64)
+    pairs = []
+    ipix, iw = hpg.get_interpolation_weights(meta.ns, lon, lat, lonlat=True)
+    wt = []
+    for row in iw:
+        for w in row:
+            wt += qtok(float(w))
+    for ap in (False, True):
+        got, err = run_api(i, 'interpolate_pos', lambda: m.interpolate_pos(lon, lat, lonlat=True, allow_partial=ap))
+        if err:
+            pairs += fail(i, err)
+            continue
+
+        def cmp(res, got=got, ap=ap):
+            mm = []
+            for layer, grp in (('L1', res[1]), ('L0', res[2])):
+                for k in range(len(got)):
+                    flag, nu, de = grp[3 * k: 3 * k + 3]
+                    g = float(got[k])
+                    if flag == 0:
+                        okk = (g == UNSEEN)
+                    else:
+                        x = Fraction(nu, de)
+                        okk = g != UNSEEN and abs(Fraction(g) - x) <= Fraction(1, 10 ** 9) * max(1, abs(x))
+                    if not okk:
+                        mm.append(dict(step=i, what='interpolate_pos(allow_partial=%s) differs from the weighted mean of the neighbours' % ap,
+                                       layer=layer, impl=g, model=[flag, nu, de]))
+                        break
+            return mm
+        pairs.append(([[33], [h], [1 if ap else 0], [int(p) for p in ipix.ravel()], wt], cmp))
+    return pairs
+
+
+# ---------------------------------------------------------------- random points (C20)
+@step('rand')
+def do_rand(env, st, i):
+    import signal
+    h = st['h']
+    m = env.maps[h]
+    meta = env.meta[h]
+    n = st['n']
+    seed = st['seed']
+    kind = st['kind']
+    pairs = []
+    vp = np.array(sorted(int(p) for p in m.valid_pixels), dtype=np.int64)
+    if vp.size == 0:
+        return []
+
+    class TO(Exception):
+        pass
+
+    def handler(sig, frm):
+        raise TO()
+
+    def call(rs):
+        if kind == 'fast':
+            return healsparse.make_uniform_randoms_fast(m, n, nside_randoms=st['nside_randoms'], rng=rs)
+        return healsparse.make_uniform_randoms(m, n, rng=rs)
+    old = signal.signal(signal.SIGALRM, handler)
+    signal.alarm(st.get('timeout', 20))
+    try:
+        ra, dec = call(np.random.RandomState(seed))
+        ra2, dec2 = call(np.random.RandomState(seed))
+    except TO:
+        signal.alarm(0)
+        signal.signal(signal.SIGALRM, old)
+        return fail(i, 'random point generation did not terminate (footprint starved of candidates)')
+    except Exception as e:  # noqa
+        signal.alarm(0)
+        signal.signal(signal.SIGALRM, old)
+        return fail(i, 'random point generation raised %s: %s' % (type(e).__name__, e))
+    signal.alarm(0)
+    signal.signal(signal.SIGALRM, old)
+    if len(ra) != n or len(dec) != n:
+        pairs += fail(i, 'random generator returned %d points, %d requested' % (len(ra), n))
+    if not (np.array_equal(ra, ra2) and np.array_equal(dec, dec2)):
+        pairs += fail(i, 'the same seeded generator state gave different points')
+    if n > 0 and not np.all(m.get_values_pos(ra, dec, lonlat=True, valid_mask=True)):
+        pairs += fail(i, 'a random point lies outside the valid footprint')
+    if kind == 'fast' and n > 0:
+        # replay the generator's draws and let the model compute the fine pixels
+        rs = np.random.RandomState(seed)
+        coarse = rs.choice(vp_storage_order(m), size=n, replace=True)
+        shift = 2 * int(round(np.log2(st['nside_randoms'] / meta.ns)))
+        sub = rs.randint(0, high=2 ** shift, size=n)
+        fine = hpg.angle_to_pixel(st['nside_randoms'], ra, dec, lonlat=True)
+
+        def cmp(res, fine=[int(x) for x in fine], coarse=[int(c) for c in coarse]):
+            mm = []
+            if res[1] != fine:
+                mm.append(dict(step=i, what='fast random points differ from (coarse << shift) + sub of the replayed draws', layer='L1',
+                               impl=fine[:10], model=res[1][:10]))
+            if res[2] != coarse:
+                mm.append(dict(step=i, what='a drawn fine pixel is not a child of the chosen valid pixel', layer='L0', impl=None, model=None))
+            return mm
+        pairs.append(([[34], [shift], [int(c) for c in coarse], [int(s) for s in sub]], cmp))
+    # no valid part of a small footprint is starved (fixed tolerance: expected >= 40 points per cell)
+    if st.get('occupancy'):
+        if kind == 'fast':
+            fine = hpg.angle_to_pixel(st['nside_randoms'], ra, dec, lonlat=True)
+            nsub = (st['nside_randoms'] // meta.ns) ** 2
+            cells = len(vp) * nsub
+            if n >= 40 * cells:
+                hit = np.unique(fine)
+                if len(hit) < cells:
+                    pairs += fail(i, 'fast random points never fall in %d of the %d sub-pixels of the footprint' % (cells - len(hit), cells))
+        else:
+            pix = hpg.angle_to_pixel(meta.ns, ra, dec, lonlat=True)
+            if n >= 40 * len(vp):
+                hit = np.unique(pix)
+                if len(hit) < len(vp):
+                    pairs += fail(i, 'random points never fall in %d of the %d valid pixels' % (len(vp) - len(hit), len(vp)))
+    return pairs
+
+
+def vp_storage_order(m):
+    return m.valid_pixels
+
+
+# ---------------------------------------------------------------- canonical rebuild (C10)
+@step('canon')
+def do_canon(env, st, i):
+    """a freshly built map with the same content: make_empty with the same parameters and the covered
+    coverage pixels pre-allocated in ascending order, valid pixels written in ascending order"""
+    h, out = st['h'], st['out']
+    m = env.maps[h]
+    meta = env.meta[h]
+    cov = np.where(m.coverage_mask)[0]
+    kw = {}
+    if cov.size:
+        kw['cov_pixels'] = cov
+    if meta.kind == 'wide':
+        m2 = HealSparseMap.make_empty(m.nside_coverage, m.nside_sparse, healsparse.WIDE_MASK,
+                                      wide_mask_maxbits=m.wide_mask_maxbits, **kw)
+    elif meta.kind == 'rec':
+        m2 = HealSparseMap.make_empty(m.nside_coverage, m.nside_sparse, m.dtype, primary=m.primary, sentinel=m._sentinel, **kw)
+    elif meta.kind == 'packed':
+        m2 = HealSparseMap.make_empty(m.nside_coverage, m.nside_sparse, np.bool_, bit_packed=True, **kw)
+    else:
+        m2 = HealSparseMap.make_empty(m.nside_coverage, m.nside_sparse, np.dtype(m.dtype).type, sentinel=m._sentinel, **kw)
+    vp = np.sort(m.valid_pixels)
+    if vp.size:
+        vals = m.get_values_pix(vp)
+        if not vals.flags.owndata or not vals.dtype.isnative:
+            vals = np.array(vals, dtype=vals.dtype.newbyteorder('='))
+        m2.update_values_pix(vp, vals)
+    env.put(out, m2)
+    env.meta[out].tol = meta.tol
+    env.meta[out].transform = meta.transform
+    covs = [int(c) for c in cov]
+    return [([[22], [h], [out], [meta.ncov, meta.nfine], [1 if covs else 0], covs], expect_ok(i, 'canon'))]
+
+
+@step('covsame')
+def do_covsame(env, st, i):
+    a, b = env.maps[st['h']], env.maps[st['ref']]
+    if not np.array_equal(a.coverage_mask, b.coverage_mask):
+        return fail(i, 'coverage masks of two maps that must be equal differ')
+    return []
+
+
+@step('queries')
+def do_queries(env, st, i):
+    """every query gives equal answers on two content-equal maps (listing order aside)"""
+    a, b = env.maps[st['h']], env.maps[st['ref']]
+    bad = []
+    try:
+        if int(a.n_valid) != int(b.n_valid):
+            bad.append('n_valid')
+        if sorted(a.valid_pixels.tolist()) != sorted(b.valid_pixels.tolist()):
+            bad.append('valid_pixels')
+        if not np.array_equal(a.coverage_map, b.coverage_map):
+            bad.append('coverage_map')
+        if a.get_valid_area() != b.get_valid_area():
+            bad.append('get_valid_area')
+        fa = a.fracdet_map(a.nside_coverage)
+        fb = b.fracdet_map(b.nside_coverage)
+        if sorted(fa.valid_pixels.tolist()) != sorted(fb.valid_pixels.tolist()):
+            bad.append('fracdet_map')
+        if str(a) != str(b):
+            bad.append('__str__')
+    except Exception as e:  # noqa
+        bad.append('query raised %s: %s' % (type(e).__name__, e))
+    if bad:
+        return fail(i, 'queries on content-equal maps differ: ' + ', '.join(bad))
+    return []
+
+
+# ---------------------------------------------------------------- geometry (C08, C13)
+def make_shape(spec, value):
+    from healsparse import geom as G
+    kw = {}
+    if spec.get('nside_render'):
+        kw['nside_render'] = spec['nside_render']
+    t = spec['type']
+    if t == 'circle':
+        return G.Circle(ra=spec['ra'], dec=spec['dec'], radius=spec['radius'], value=value, **kw)
+    if t == 'ellipse':
+        return G.Ellipse(ra=spec['ra'], dec=spec['dec'], semi_major=spec['a'], semi_minor=spec['b'], alpha=spec['alpha'],
+                         value=value, **kw)
+    if t == 'polygon':
+        return G.Polygon(ra=spec['ras'], dec=spec['decs'], value=value, **kw)
+    if t == 'box':
+        return G.Box(ra1=spec['ra1'], ra2=spec['ra2'], dec1=spec['dec1'], dec2=spec['dec2'], value=value, **kw)
+    raise RuntimeError(t)
+
+
+def _geom_value(meta, m, value):
+    """(python value for the shape, model tokens of one cell, update operation value)"""
+    if meta.kind == 'wide':
+        bits = [int(b) for b in value]
+        v = 0
+        for b in bits:
+            v |= 1 << b
+        return bits, [v, 1]
+    if meta.kind == 'packed' or m.dtype == np.bool_:
+        return bool(value), [int(bool(value)), 1]
+    return int(value), [int(value), 1]
+
+
+@step('geom')
+def do_geom(env, st, i):
+    from healsparse import geom as G
+    mode = st['mode']
+    pairs = []
+    if mode in ('get_map', 'get_map_like'):
+        out = st['out']
+        value = st['value']
+        wide = isinstance(value, list)
+        g = make_shape(st['shape'], value)
+        if mode == 'get_map':
+            kw = dict(nside_coverage=st['nc'], nside_sparse=st['ns'], dtype=(healsparse.WIDE_MASK if wide else DT[st['dtype']]))
+            if wide and st.get('maxbits') is not None:
+                kw['wide_mask_maxbits'] = st['maxbits']
+            res, err = run_api(i, 'get_map', lambda: g.get_map(**kw))
+        else:
+            res, err = run_api(i, 'get_map_like', lambda: g.get_map_like(env.maps[st['like']]))
+        if err:
+            return fail(i, err)
+        env.put(out, res)
+        nm = env.meta[out]
+        pix = sorted(set(int(p) for p in g.get_pixels(nside=res.nside_sparse)))
+        if wide:
+            need = max(value) + 1
+            if res.wide_mask_maxbits < need:
+                pairs += fail(i, 'the map of a shape is %d bits wide but its value has bit %d' % (res.wide_mask_maxbits, max(value)))
+        pyv, toks = _geom_value(nm, res, value)
+        mk = [[1], [out], [nm.ncov, nm.nfine], ktoks(nm), [nm.sent.numerator, nm.sent.denominator], [0], []]
+        pairs.append((mk, expect_ok(i, 'geom-mk')))
+        if pix:
+            pairs.append(([[2], [out], [hsops.OPCODE['or'] if wide else 0, 0], pix, toks * len(pix)], expect_ok(i, 'geom-fill')))
+        return pairs
+    h = st['h']
+    m = env.maps[h]
+    meta = env.meta[h]
+    pyv, toks = _geom_value(meta, m, st['value'])
+    shapes = st['shapes'] if mode == 'realize' else [st['shape']]
+    gs = [make_shape(s, pyv) for s in shapes]
+    ns = m.nside_sparse
+    # oracle contract: the ranges a shape renders contain exactly the pixels it renders
+    allpix = []
+    for g, s in zip(gs, shapes):
+        px = sorted(set(int(p) for p in g.get_pixels(nside=ns)))
+        rr = g.get_pixel_ranges(nside=ns)
+        ex = sorted(set(int(p) for p in hpg.pixel_ranges_to_pixels(rr))) if len(rr) else []
+        if px != ex:
+            pairs += fail(i, 'a shape renders different pixels through get_pixels and get_pixel_ranges')
+        if s.get('nside_render'):
+            base = sorted(set(int(p) for p in make_shape(dict(s, nside_render=None), pyv).get_pixels(nside=s['nside_render'])))
+            r = (ns // s['nside_render']) ** 2
+            kids = sorted(c for b in base for c in range(b * r, (b + 1) * r))
+            if kids != px:
+                pairs += fail(i, 'a shape with a render resolution does not cover exactly the children of its rendered pixels')
+        allpix.append([int(p) for p in hpg.pixel_ranges_to_pixels(rr)] if len(rr) else [])
+    opn = {'or': 'or', 'ior': 'or', 'and': 'and', 'iand': 'and', 'add': 'add', 'iadd': 'add', 'realize': 'or'}[mode]
+    inplace = mode in ('ior', 'iand', 'iadd', 'realize')
+    if mode == 'realize':
+        res, err = run_api(i, 'realize_geom', lambda: G.realize_geom(gs, m))
+        res = m
+    else:
+        fn = {'or': operator.or_, 'ior': operator.ior, 'and': operator.and_, 'iand': operator.iand,
+              'add': operator.add, 'iadd': operator.iadd}[mode]
+        res, err = run_api(i, 'map %s shape' % mode, lambda: fn(m, gs[0]))
+    if err:
+        return pairs + fail(i, err)
+    tgt = h
+    if not inplace:
+        tgt = st['out']
+        env.put(tgt, res)
+        pairs.append(([[24], [h], [tgt]], expect_ok(i, 'geom-copy')))
+    for px in allpix:
+        if px:
+            pairs.append(([[2], [tgt], [hsops.OPCODE[opn], 0], px, toks * len(px)], expect_ok(i, 'geom-upd')))
+    return pairs
